@@ -37,3 +37,404 @@ Lemma list_last_all_values : forall c vs acc ρ lk k,
   ctl c = CRet vs -> stk c = KList acc [] ρ lk :: k ->
   step c = finish_list c (acc ++ vs) ρ lk k.
 Proof. intros. unfold step. rewrite H, H0. reflexivity. Qed.
+
+(* ------------------------------------------------------------ errors (C11) *)
+
+(* frames that an error outcome passes through without stopping *)
+Definition passes_error (fr : frame) : bool :=
+  match fr with KPcall _ | KCoBottom _ => false | _ => true end.
+
+(* the current line after unwinding through the frames k1 *)
+Fixpoint unwind_line (k1 : list frame) (ln : Z) : Z :=
+  match k1 with
+  | [] => ln
+  | KCallB saved _ :: r => unwind_line r saved
+  | _ :: r => unwind_line r ln
+  end.
+
+Lemma step_error_pop : forall fr v k σ tr ln,
+  passes_error fr = true ->
+  step (mkCfg (COut (OError v)) (fr :: k) σ tr ln) =
+  inl (mkCfg (COut (OError v)) k σ tr (unwind_line [fr] ln)).
+Proof. intros. destruct fr; try discriminate; reflexivity. Qed.
+
+(* nearest_barrier_only + error_value_intact + the `false, v` half of pcall_results:
+   an error unwinds the frames up to and including the nearest barrier, and nothing
+   else: the frames further out (k2), the store and the trace are untouched, and the
+   barrier's continuation receives exactly `false` and the value raised. *)
+Theorem error_reaches_nearest_barrier : forall k1 h k2 v σ tr ln,
+  forallb passes_error k1 = true ->
+  steps (length k1 + 1) (mkCfg (COut (OError v)) (k1 ++ KPcall h :: k2) σ tr ln) =
+  inl (mkCfg (CRet [VBool false; v]) k2 σ tr (unwind_line k1 ln)).
+Proof.
+  induction k1 as [|fr k1 IH]; intros h k2 v σ tr ln H.
+  - reflexivity.
+  - simpl in H. apply andb_prop in H. destruct H as [Hf Hr].
+    change (length (fr :: k1) + 1)%nat with (S (length k1 + 1)).
+    cbn [steps app].
+    rewrite (step_error_pop fr v (k1 ++ KPcall h :: k2) σ tr ln Hf).
+    rewrite (IH h k2 v σ tr _ Hr).
+    destruct fr; reflexivity.
+Qed.
+
+(* an uncaught error reaches the embedding caller with its value intact *)
+Theorem error_reaches_host : forall k1 v σ tr ln,
+  forallb passes_error k1 = true ->
+  steps (length k1 + 1) (mkCfg (COut (OError v)) k1 σ tr ln) = inr (FError v).
+Proof.
+  induction k1 as [|fr k1 IH]; intros v σ tr ln H.
+  - reflexivity.
+  - simpl in H. apply andb_prop in H. destruct H as [Hf Hr].
+    change (length (fr :: k1) + 1)%nat with (S (length k1 + 1)).
+    cbn [steps].
+    rewrite (step_error_pop fr v k1 σ tr ln Hf).
+    apply IH. exact Hr.
+Qed.
+
+(* pcall_results, normal return: true followed by all results *)
+Theorem pcall_returns_true_and_all : forall vs h k σ tr ln,
+  step (mkCfg (CRet vs) (KPcall h :: k) σ tr ln) = inl (mkCfg (CRet (VBool true :: vs)) k σ tr ln).
+Proof. reflexivity. Qed.
+
+(* frames that neither stop an error nor hide the barrier's handler *)
+Definition plain_frame (fr : frame) : bool :=
+  match fr with KPcall _ | KCoBottom _ | KHandler => false | _ => true end.
+
+Lemma plain_passes : forall k, forallb plain_frame k = true -> forallb passes_error k = true.
+Proof.
+  induction k as [|fr k IH]; simpl; auto. intros H. apply andb_prop in H. destruct H as [H1 H2].
+  rewrite (IH H2). destruct fr; try discriminate; reflexivity.
+Qed.
+
+Lemma find_handler_nearest : forall k1 h k2,
+  forallb plain_frame k1 = true -> find_handler (k1 ++ KPcall h :: k2) = h.
+Proof.
+  induction k1 as [|fr k1 IH]; simpl; intros; auto.
+  apply andb_prop in H. destruct H as [H1 H2].
+  destruct fr; try discriminate; apply IH; auto.
+Qed.
+
+(* a raise under a plain pcall: no handler runs — in particular not the handler of
+   an xpcall further out (in k2) — and the barrier's continuation gets false, v. *)
+Theorem raise_under_pcall_no_outer_handler : forall k1 k2 v σ tr ln,
+  forallb plain_frame k1 = true ->
+  steps (S (length k1 + 1)) (mkCfg (CRaise v) (k1 ++ KPcall None :: k2) σ tr ln) =
+  inl (mkCfg (CRet [VBool false; v]) k2 σ tr (unwind_line k1 ln)).
+Proof.
+  intros. cbn [steps]. unfold step at 1. cbn [ctl stk].
+  rewrite find_handler_nearest by assumption.
+  unfold go. cbn [sto trace cline].
+  apply error_reaches_nearest_barrier. apply plain_passes; assumption.
+Qed.
+
+(* xpcall: the handler is called once, at the point of the error (the whole stack is
+   still in place under the KHandler frame) ... *)
+Theorem raise_calls_handler_at_raise_point : forall k1 h k2 v σ tr ln,
+  forallb plain_frame k1 = true ->
+  step (mkCfg (CRaise v) (k1 ++ KPcall (Some h) :: k2) σ tr ln) =
+  inl (mkCfg (CCall h [v] false) (KHandler :: k1 ++ KPcall (Some h) :: k2) σ tr ln).
+Proof.
+  intros. unfold step. cbn [ctl stk]. rewrite find_handler_nearest by assumption. reflexivity.
+Qed.
+
+(* ... and when it returns, its first result replaces the error value, which then goes
+   to the barrier without the handler being consulted again. *)
+Theorem handler_result_replaces_error : forall k1 h k2 vs σ tr ln,
+  forallb passes_error k1 = true ->
+  steps (S (length k1 + 1)) (mkCfg (CRet vs) (KHandler :: k1 ++ KPcall (Some h) :: k2) σ tr ln) =
+  inl (mkCfg (CRet [VBool false; first vs]) k2 σ tr (unwind_line k1 ln)).
+Proof.
+  intros. cbn [steps]. unfold step at 1. cbn [ctl stk step_ret]. unfold go. cbn [sto trace cline].
+  apply error_reaches_nearest_barrier. assumption.
+Qed.
+
+(* while a handler runs, a further error does not start another handler *)
+Theorem no_handler_inside_handler : forall k1 k v σ tr ln,
+  forallb plain_frame k1 = true ->
+  step (mkCfg (CRaise v) (k1 ++ KHandler :: k) σ tr ln) =
+  inl (mkCfg (COut (OError v)) (k1 ++ KHandler :: k) σ tr ln).
+Proof.
+  intros. unfold step. cbn [ctl stk].
+  assert (E : find_handler (k1 ++ KHandler :: k) = None).
+  { clear -H. induction k1 as [|fr k1 IH]; simpl in *; auto.
+    apply andb_prop in H. destruct H as [H1 H2]. destruct fr; try discriminate; auto. }
+  rewrite E. reflexivity.
+Qed.
+
+(* error(v) with a non-string value, or level 0, raises v itself *)
+Theorem error_builtin_raises_value : forall v k σ tr ln,
+  (forall s, v <> VStr s) ->
+  step (mkCfg (CCall (VBuiltin BError) [v] true) k σ tr ln) = inl (mkCfg (CRaise v) k σ tr ln).
+Proof.
+  intros. unfold step, step_call, call_builtin. cbn [ctl stk opt_int nth_error first].
+  destruct v; try reflexivity. exfalso. apply (H s). reflexivity.
+Qed.
+
+Theorem error_builtin_level1_position : forall s k σ tr ln,
+  step (mkCfg (CCall (VBuiltin BError) [VStr s] true) k σ tr ln) =
+  inl (mkCfg (CRaise (VStr (position_at ln ++ s))) k σ tr ln).
+Proof. reflexivity. Qed.
+
+Theorem error_builtin_level0_intact : forall s k σ tr ln,
+  step (mkCfg (CCall (VBuiltin BError) [VStr s; VInt 0] true) k σ tr ln) =
+  inl (mkCfg (CRaise (VStr s)) k σ tr ln).
+Proof. reflexivity. Qed.
+
+(* the hypotheses are satisfiable: a call frame, a loop frame and a block frame above a barrier *)
+Example barrier_example :
+  forallb plain_frame [KSeq [] (mkEnv [] []) []; KCallB 3 true; KForNumI [120%N] 1 3 1 [] (mkEnv [] []) 2] = true.
+Proof. reflexivity. Qed.
+
+(* ------------------------------------------------------------ scoping (C01) *)
+
+(* assign_rhs_first: in `a, b = b, a` both right-hand sides are evaluated before any
+   assignment: the two variables are swapped, for every store, stack and pair of
+   distinct cells. *)
+Definition na : name := [97%N].
+Definition nb : name := [98%N].
+
+Theorem assign_rhs_first_swap : forall ca cb rest va' k σ tr ln ln0,
+  let ρ := mkEnv ((nb, cb) :: (na, ca) :: rest) va' in
+  steps 8 (mkCfg (CStat ln (SAssign [EVar na; EVar nb] [EVar nb; EVar na]) ρ) k σ tr ln0) =
+  inl (mkCfg CDone k (cell_set (cell_set σ ca (cell_get σ cb)) cb (cell_get σ ca)) tr ln0).
+Proof. intros. reflexivity. Qed.
+
+(* every execution of a `local` statement binds a cell that was not allocated before *)
+Definition cells_below (s : store) : Prop :=
+  forall c, PositiveMap.find c (cells s) <> None -> (c < ncell s)%positive.
+
+Lemma cell_alloc_fresh : forall s v, cells_below s -> PositiveMap.find (fst (cell_alloc s v)) (cells s) = None.
+Proof.
+  intros s v H. unfold cell_alloc. cbn [fst].
+  destruct (PositiveMap.find (ncell s) (cells s)) eqn:E; auto.
+  assert (ncell s < ncell s)%positive by (apply H; rewrite E; discriminate). lia.
+Qed.
+
+Lemma cell_alloc_below : forall s v, cells_below s -> cells_below (snd (cell_alloc s v)).
+Proof.
+  intros s v H c. unfold cell_alloc. cbn [snd cells ncell].
+  rewrite PositiveMapAdditionalFacts.gsspec.
+  destruct (PositiveMap.E.eq_dec c (ncell s)).
+  - intros _. subst. lia.
+  - intros Hc. specialize (H c Hc). lia.
+Qed.
+
+(* fresh_cell_per_iteration, numeric for: when the loop goes on, the loop variable of
+   the next iteration lives in the cell `ncell` of the current store — a cell no
+   earlier iteration (nor anything else) can hold — and the counter moves past it. *)
+Theorem fresh_cell_per_iteration_fornum : forall x cur lim st b ρ ln k σ tr ln0,
+  ((if 0 <? st then cur + st <=? lim else lim <=? cur + st) && in64b (cur + st))%bool = true ->
+  step (mkCfg CDone (KForNumI x cur lim st b ρ ln :: k) σ tr ln0) =
+  inl (mkCfg (CBlock b (mkEnv ((x, ncell σ) :: vars ρ) (va ρ)) [])
+             (KForNumI x (cur + st) lim st b ρ ln :: k)
+             (snd (cell_alloc σ (VInt (cur + st)))) tr ln0)
+  /\ ncell (snd (cell_alloc σ (VInt (cur + st)))) = Pos.succ (ncell σ).
+Proof.
+  intros. split; [|reflexivity].
+  unfold step. cbn [ctl stk step_done]. unfold enter_fornum_i. cbn [sto].
+  rewrite H. reflexivity.
+Qed.
+
+(* the same for generic for: each iteration binds its variables with bind_names on the
+   current store, i.e. in fresh cells *)
+Theorem fresh_cells_per_iteration_forin : forall xs f s b ρ ln k σ tr ln0 v vs,
+  v <> VNil ->
+  step (mkCfg (CRet (v :: vs)) (KForInC xs f s b ρ ln :: k) σ tr ln0) =
+  inl (let '(ρv, s', _) := bind_names xs (v :: vs) (vars ρ) σ in
+       mkCfg (CBlock b (mkEnv ρv (va ρ)) []) (KForIn xs f s v b ρ ln :: k) s' tr ln0).
+Proof.
+  intros. unfold step. cbn [ctl stk step_ret first sto].
+  destruct v; try congruence; destruct (bind_names xs _ (vars ρ) σ) as [[? ?] ?]; reflexivity.
+Qed.
+
+Lemma bind_names_ncell : forall xs vs ρ s,
+  (ncell s <= ncell (snd (fst (bind_names xs vs ρ s))))%positive.
+Proof.
+  induction xs; intros; simpl. lia.
+  specialize (IHxs (tl vs) ((a, ncell s) :: ρ)
+    (mkStore (PositiveMap.add (ncell s) (first vs) (cells s)) (Pos.succ (ncell s)) (tabs s) (ntab s) (clos s) (nclo s))).
+  cbn [ncell] in IHxs. lia.
+Qed.
+
+(* a `local` statement with values already evaluated binds fresh cells and continues the block *)
+Theorem local_binds_fresh : forall xs rest seen acc ρ k σ tr ln vs,
+  has_close xs = false ->
+  step (mkCfg (CRet vs) (KList acc [] ρ (LLocal xs rest seen) :: k) σ tr ln) =
+  inl (let '(ρv, s, _) := bind_names (map fst xs) (acc ++ vs) (vars ρ) σ in
+       mkCfg (CBlock rest (mkEnv ρv (va ρ)) seen) k s tr ln).
+Proof.
+  intros. unfold step. cbn [ctl stk step_ret finish_list sto]. rewrite H.
+  destruct (bind_names (map fst xs) (acc ++ vs) (vars ρ) σ) as [[? ?] ?]. reflexivity.
+Qed.
+
+(* ------------------------------------------------------------ identities are never reused *)
+
+Definition mono (s s' : store) : Prop :=
+  (ncell s <= ncell s')%positive /\ (ntab s <= ntab s')%positive /\ (nclo s <= nclo s')%positive.
+
+Lemma mono_refl : forall s, mono s s.
+Proof. intros; repeat split; lia. Qed.
+Lemma mono_trans : forall a b c, mono a b -> mono b c -> mono a c.
+Proof. unfold mono; intros; intuition lia. Qed.
+
+Definition res_mono (s : store) (r : res) : Prop :=
+  match r with inl c' => mono s (sto c') | inr _ => True end.
+
+Lemma mono_cell_set : forall s c v, mono s (cell_set s c v).
+Proof. intros; repeat split; cbn; lia. Qed.
+Lemma mono_cell_alloc : forall s v, mono s (snd (cell_alloc s v)).
+Proof. intros; repeat split; cbn; lia. Qed.
+Lemma mono_tab_put : forall s t x, mono s (tab_put s t x).
+Proof. intros; repeat split; cbn; lia. Qed.
+Lemma mono_tab_alloc : forall s x, mono s (snd (tab_alloc s x)).
+Proof. intros; repeat split; cbn; lia. Qed.
+Lemma mono_clo_alloc : forall s x, mono s (snd (clo_alloc s x)).
+Proof. intros; repeat split; cbn; lia. Qed.
+Lemma mono_rawset : forall s t k v, mono s (rawset s t k v).
+Proof. intros; unfold rawset; apply mono_tab_put. Qed.
+Lemma mono_bind_names : forall xs vs ρ s, mono s (snd (fst (bind_names xs vs ρ s))).
+Proof.
+  induction xs; intros; simpl. apply mono_refl.
+  eapply mono_trans; [|apply IHxs]. repeat split; cbn; lia.
+Qed.
+
+Ltac msolve := first [ exact (mono_refl _) | exact I
+  | (unfold mono, rawset, tab_put, cell_set, put_map; cbn [ncell ntab nclo sto]; repeat split; lia) ].
+
+Ltac fin :=
+  repeat match goal with
+  | |- res_mono _ (go _ _ _) => exact (mono_refl _)
+  | |- res_mono _ (gol _ _ _ _) => exact (mono_refl _)
+  | |- res_mono _ (rterr _ _ _) => exact (mono_refl _)
+  | |- res_mono _ (inr _) => exact I
+  | |- res_mono _ (inl _) => cbn [res_mono sto]
+  | |- res_mono _ (gos _ _ _ _) => unfold gos; cbn [res_mono sto]
+  end; try msolve.
+
+Ltac brk :=
+  repeat match goal with
+  | |- res_mono _ (match ?x with _ => _ end) => destruct x
+  | |- res_mono _ (if ?x then _ else _) => destruct x
+  | |- res_mono _ (let '(_, _) := ?x in _) => destruct x eqn:?
+  end.
+
+Lemma enter_fornum_i_mono : forall c x cur lim st b ρ ln k, res_mono (sto c) (enter_fornum_i c x cur lim st b ρ ln k).
+Proof. intros. unfold enter_fornum_i, cell_alloc. brk; fin. Qed.
+Lemma enter_fornum_f_mono : forall c x cur lim st b ρ ln k, res_mono (sto c) (enter_fornum_f c x cur lim st b ρ ln k).
+Proof. intros. unfold enter_fornum_f, cell_alloc. brk; fin. Qed.
+
+Lemma fornum_init_mono : forall c x b ρ ln vals k, res_mono (sto c) (fornum_init c x b ρ ln vals k).
+Proof.
+  intros. unfold fornum_init.
+  brk; fin; try apply enter_fornum_i_mono; try apply enter_fornum_f_mono.
+Qed.
+
+Lemma finish_list_mono : forall c vals ρ lk k, res_mono (sto c) (finish_list c vals ρ lk k).
+Proof.
+  intros. unfold finish_list, tab_alloc. destruct lk.
+  - brk; fin.
+  - fin.
+  - destruct (has_close xs); [fin|].
+    pose proof (mono_bind_names (map fst xs) vals (vars ρ) (sto c)) as M.
+    destruct (bind_names (map fst xs) vals (vars ρ) (sto c)) as [[? ?] ?]. cbn [fst snd] in M. fin. exact M.
+  - brk; fin.
+  - brk; fin.
+  - apply fornum_init_mono.
+  - brk; fin.
+Qed.
+
+Lemma start_list_mono : forall c acc es ρ lk k, res_mono (sto c) (start_list c acc es ρ lk k).
+Proof. intros. unfold start_list. destruct es; fin. apply finish_list_mono. Qed.
+
+Lemma step_binop_mono : forall c o a b k, res_mono (sto c) (step_binop c o a b k).
+Proof. intros. unfold step_binop. destruct o; brk; fin. Qed.
+Lemma step_unop_mono : forall c o a k, res_mono (sto c) (step_unop c o a k).
+Proof. intros. unfold step_unop. destruct o; brk; fin. Qed.
+Lemma step_index_mono : forall c t kk k, res_mono (sto c) (step_index c t kk k).
+Proof. intros. unfold step_index. brk; fin. Qed.
+Lemma step_setindex_mono : forall c t kk v k, res_mono (sto c) (step_setindex c t kk v k).
+Proof. intros. unfold step_setindex. brk; fin. Qed.
+Lemma call_builtin_mono : forall c b args k, res_mono (sto c) (call_builtin c b args k).
+Proof. intros. unfold call_builtin, tab_alloc. destruct b; brk; fin. Qed.
+
+Lemma step_call_mono : forall c f args lua k, res_mono (sto c) (step_call c f args lua k).
+Proof.
+  intros. unfold step_call. destruct f; try (brk; fin; fail).
+  - destruct (PositiveMap.find id (clos (sto c))); [|fin].
+    pose proof (mono_bind_names (c_params c0) args (c_env c0) (sto c)) as M.
+    destruct (bind_names (c_params c0) args (c_env c0) (sto c)) as [[? ?] ?]. cbn [fst snd] in M. fin. exact M.
+  - apply call_builtin_mono.
+Qed.
+
+Lemma step_stat_mono : forall c ln s ρ k, res_mono (sto c) (step_stat c ln s ρ k).
+Proof. intros. unfold step_stat. destruct s; try apply start_list_mono; brk; fin. Qed.
+
+Lemma step_block_mono : forall c ss ρ seen k, res_mono (sto c) (step_block c ss ρ seen k).
+Proof.
+  intros. unfold step_block, cell_alloc, clo_alloc. destruct ss as [|[ln s] rest]; [fin|].
+  destruct s; try (fin; fail).
+  - exact (start_list_mono (mkCfg (ctl c) (stk c) (sto c) (trace c) ln) [] es ρ (LLocal xs rest seen) k).
+  - brk; fin.
+Qed.
+
+Lemma step_exp_mono : forall c e ρ k, res_mono (sto c) (step_exp c e ρ k).
+Proof. intros. unfold step_exp, clo_alloc. destruct e; try apply start_list_mono; brk; fin. Qed.
+
+Lemma step_ret_mono : forall c vs fr k, res_mono (sto c) (step_ret c vs fr k).
+Proof.
+  intros. unfold step_ret. destruct fr; try (brk; fin; fail).
+  - destruct (first vs); try fin;
+    match goal with |- context[bind_names ?a ?b ?c ?d] =>
+      pose proof (mono_bind_names a b c d) as M; destruct (bind_names a b c d) as [[? ?] ?]; cbn [fst snd] in M; fin; exact M end.
+  - destruct rest; [apply finish_list_mono | fin].
+  - apply start_list_mono.
+Qed.
+
+Lemma step_done_mono : forall c fr k, res_mono (sto c) (step_done c fr k).
+Proof.
+  intros. unfold step_done. destruct fr; try (fin; fail).
+  - apply enter_fornum_i_mono.
+  - apply enter_fornum_f_mono.
+Qed.
+
+Lemma step_out_mono : forall c o fr k, res_mono (sto c) (step_out c o fr k).
+Proof. intros. unfold step_out. destruct o; destruct fr; brk; fin. Qed.
+
+Theorem step_mono : forall c, res_mono (sto c) (step c).
+Proof.
+  intros. unfold step. destruct (ctl c).
+  - apply step_exp_mono.
+  - apply step_block_mono.
+  - apply step_stat_mono.
+  - destruct (stk c); [fin | apply step_ret_mono].
+  - destruct (stk c); [fin | apply step_done_mono].
+  - destruct (stk c); [brk; fin | apply step_out_mono].
+  - brk; fin.
+  - apply step_call_mono.
+  - apply step_index_mono.
+  - apply step_setindex_mono.
+  - apply step_binop_mono.
+  - apply step_unop_mono.
+  - brk; fin.
+Qed.
+
+(* along any run, for any number of steps, allocation counters only grow: a cell,
+   table or closure identity is never handed out twice *)
+Theorem steps_mono : forall n c c', steps n c = inl c' -> mono (sto c) (sto c').
+Proof.
+  induction n; intros c c' H; simpl in H.
+  - inversion H. apply mono_refl.
+  - pose proof (step_mono c) as M. destruct (step c) as [c1|f] eqn:E; [|discriminate].
+    eapply mono_trans; [exact M | apply IHn; exact H].
+Qed.
+
+(* fresh_cell_per_iteration, unbounded form: the cell bound at the start of one
+   iteration (ncell of the store at that point) differs from the cell bound at any
+   later point of the run, e.g. by the next iteration: closures created in different
+   iterations capture different variables. *)
+Corollary later_cells_differ : forall n σ v c ct k tr ln,
+  steps n (mkCfg ct k (snd (cell_alloc σ v)) tr ln) = inl c ->
+  (ncell σ < ncell (sto c))%positive.
+Proof.
+  intros. apply steps_mono in H. destruct H as [H _]. cbn [sto cell_alloc snd ncell] in H. lia.
+Qed.
